@@ -347,4 +347,5 @@ class MultiprocessingFacade:
 
     @staticmethod
     def cpu_count():
-        return 16
+        # the machine of the run: as many CPUs as the schedule has workers
+        return getattr(SymPool.schedule, 'workers', None) or 16
